@@ -527,7 +527,7 @@ static void c15_run(int tier, long cfg)
   if (d == D_NULL && S->nevents != ev0) vk_violation("C15", "destroy-null-noop", key, "destroy(NULL) made %d libc call(s)", S->nevents - ev0);
   if (visible) vk_violation("C15", "destroy-non-running-quiet", key, "destroy of a handle that is not running made %d poll/kill/waitpid/close call(s)", visible);
   int nv = S->nviol;
-  hx_check_ledgers("C15", &before, 1);
+  hx_check_ledgers("C15", key, &before, 1);
   if (S->nviol == nv) vk_hit(CL_NONRUNNING_DESTROY);
 }
 
